@@ -128,6 +128,7 @@ Inductive ev :=
 | ESleep                        (* len(cases) == 0 branch *)
 | EBadChoice                    (* the named choice is not a ready case *)
 | EStuck                        (* a call did not return (watchdog) - never produced by the model *)
+| EPanic                        (* a call panicked (e.g. runnings[chosen] out of range) - never produced by the model *)
 | EStress (off : list Z) (one : bool) (produced executed : list Z).
     (* off: per work kind (+ one slot for everything else) 1 if some entry ran off the loop goroutine *)
 
